@@ -27,6 +27,28 @@ static void gen_thread_scripts(char out[][4], int *n, int maxops)
 	}
 }
 
+// Ideal-semaphore reachability: can the program deadlock even with a perfect semaphore?
+// (a wait FOREVER with no permit left while nobody can signal any more)  Such programs are
+// excluded: their stuck executions would be legitimate.
+static int ideal_can_deadlock(const prog *p, int pc0, int pc1, int pc2, int permits)
+{
+	int pc[3] = { pc0, pc1, pc2 }, any_unfinished = 0, any_enabled = 0;
+	for (int t = 0; t < p->nthr; t++) {
+		char o = p->ops[t][pc[t]];
+		if (!o) continue;
+		any_unfinished = 1;
+		int np[3] = { pc[0], pc[1], pc[2] }; np[t]++;
+		if (o == 'S') { any_enabled = 1; if (ideal_can_deadlock(p, np[0], np[1], np[2], permits + 1)) return 1; }
+		else if (o == 'F') { if (permits > 0) { any_enabled = 1; if (ideal_can_deadlock(p, np[0], np[1], np[2], permits - 1)) return 1; } }
+		else {
+			any_enabled = 1;
+			if (permits > 0 && ideal_can_deadlock(p, np[0], np[1], np[2], permits - 1)) return 1;
+			if (ideal_can_deadlock(p, np[0], np[1], np[2], permits)) return 1;   // timed out / polled empty
+		}
+	}
+	return any_unfinished && !any_enabled;
+}
+
 static void build(void)
 {
 	if (g_nprogs) return;
@@ -41,6 +63,7 @@ static void build(void)
 			if (F > v + S - (T + N) && F > 0) continue;   // a forever wait could legitimately starve
 			if (S == 0 && v == 0 && F == 0 && T + N < 2) continue; // trivial
 			if (F + T + N == 0) continue;                  // no wait at all
+			if (ideal_can_deadlock(&p, 0, 0, 0, p.v)) continue;
 			g_progs[g_nprogs++] = p;
 		}
 	// 3 threads: one op each
@@ -51,6 +74,7 @@ static void build(void)
 			int S = count(&p, 'S'), F = count(&p, 'F'), T = count(&p, 'T'), N = count(&p, 'N');
 			if (F > v + S - (T + N) && F > 0) continue;
 			if (F + T + N == 0) continue;
+			if (ideal_can_deadlock(&p, 0, 0, 0, p.v)) continue;
 			g_progs[g_nprogs++] = p;
 		}
 	g_nquick = g_nprogs;
@@ -63,6 +87,7 @@ static void build(void)
 			int S = count(&p, 'S'), F = count(&p, 'F'), T = count(&p, 'T'), N = count(&p, 'N');
 			if (F > v + S - (T + N) && F > 0) continue;
 			if (F + T + N == 0 || S == 0) continue;
+			if (ideal_can_deadlock(&p, 0, 0, 0, p.v)) continue;
 			if (g_nprogs < MAXPROG) g_progs[g_nprogs++] = p;
 		}
 }
@@ -72,8 +97,8 @@ static void describe(int v, char *b, size_t n)
 {
 	build();
 	const prog *p = &g_progs[v];
-	snprintf(b, n, "semaphore(value=%d); threads: [%s] [%s]%s%s%s  (S=signal F=wait FOREVER T=wait 1ms N=wait NOW); then drain with NOW",
-			p->v, p->ops[0], p->ops[1], p->nthr > 2 ? " [" : "", p->nthr > 2 ? p->ops[2] : "", p->nthr > 2 ? "]" : "");
+	snprintf(b, n, "semaphore(value=%d); threads: [%s] [%s]%s%s%s  (S=signal F=wait FOREVER T=wait 1ms N=wait NOW); then drain with NOW%s",
+			p->v, p->ops[0], p->ops[1], p->nthr > 2 ? " [" : "", p->nthr > 2 ? p->ops[2] : "", p->nthr > 2 ? "]" : "", v < g_nquick ? " {core}" : "");
 }
 
 static dispatch_semaphore_t g_sem;
@@ -86,6 +111,8 @@ static void actor(void *arg)
 	int k = 0;
 	for (const char *s = g_p->ops[t]; *s; s++, k++) {
 		int id = t * 10 + k;
+		char note[8] = { 'o', 'p', ' ', *s, 0 };
+		vx_note(note);
 		if (*s == 'S') {
 			vx_ev(EV_SIG_CALL, id, 0);
 			dispatch_semaphore_signal(g_sem);
@@ -98,6 +125,7 @@ static void actor(void *arg)
 			vx_ev(EV_WAIT_RET, id, r != 0);
 		}
 	}
+	vx_note("");
 }
 
 static void run(int v)
